@@ -187,6 +187,13 @@ def _rand_h(rnd):
         items[-1][1] = len(items)
     if rnd.random() < 0.2:
         items = [[o, c * 2] for o, c in items]
+    if rnd.random() < 0.12:
+        # totals far beyond 2**53: the weights handed to the generator must still be the exact counts
+        big = 2 ** rnd.choice([53, 54, 60, 70, 100])
+        j = rnd.randrange(len(items))
+        items = [[o, c * big if (i == j or rnd.random() < 0.3) else c] for i, (o, c) in enumerate(items)]
+        if not items[j][1]:
+            items[j][1] = big
     return items
 
 
